@@ -138,9 +138,10 @@ def run(tier: str) -> Run:
     for name in ('convert', 'deduce_conversion_graph', 'conversion_graph'):
         cfi = repo.func('core.conversions', name)
         s_ = eff.summaries[cfi.fq]
-        if s_.mutates:
-            tok, m = sorted(s_.mutates.items())[0]
-            r4b.fail(name, m.where, {'writes_to': sorted(s_.mutates), 'statement': m.stmt, 'via': m.via}, key=f'core.conversions:{name}')
+        written = {t: m for t, m in s_.mutates.items() if t.startswith('p:')}  # (arguments; a memo table of the module is none)
+        if written:
+            tok, m = sorted(written.items())[0]
+            r4b.fail(name, m.where, {'writes_to': sorted(written), 'statement': m.stmt, 'via': m.via}, key=f'core.conversions:{name}')
         else:
             r4b.ok(name)
 
